@@ -314,26 +314,25 @@ Section CBR.
     - (* ECall *)
       destruct pure; [|discriminate].
       rewrite esize_call in Hsz. cbn [flags_ok] in Hfl. destruct Hfl as [Hpc [Hft Hfa]].
-      rewrite eval_call_eq in Hev. destruct (oc =? 0); [|discriminate].
-      destruct (Hpc eq_refl tr) as [fv [Hfv Hcall]]. rewrite Hfv in Hev. cbn [bind] in Hev.
-      apply lbind_inv in Hev as [(t1 & vs & Hl & Hk)|(x & Hl & Ho)].
-      + apply items_pure in Hl as [-> _].
-        * apply eff_inv in Hk as (t2 & E & ->). destruct (Hcall vs (length tr)) as [r Hr]. rewrite Hr in E. inv E.
-          rewrite app_nil_r. eauto.
-        * intros x Hin. pose proof (all_args _ Hc x Hin) as Hcx. pose proof (flags_all _ Hfa x Hin) as Hfx.
-          pose proof (in_sum_sizes _ _ Hin) as Hs.
-          assert (Hp : pure_eval x) by (apply IHc; [lia|assumption|assumption]).
-          destruct x; cbn [item_ok]; try exact Hp; try exact I. discriminate Hcx.
-      + apply items_pure in Hl as [_ [vs Hvs]]; [discriminate|].
-        intros y Hin. pose proof (all_args _ Hc y Hin) as Hcx. pose proof (flags_all _ Hfa y Hin) as Hfx.
+      rewrite eval_call_eq in Hev.
+      destruct (Hpc eq_refl tr) as [fv [Hfv Hcall]]. rewrite Hfv in Hev.
+      unfold call_step in Hev. cbn [bind] in Hev. unfold short_if in Hev.
+      destruct ((oc =? 1) && nullish fv); [cbn [catch_short] in Hev; inv Hev; eauto|].
+      assert (Hitems : forall x, In x args -> item_ok x).
+      { intros x Hin. pose proof (all_args _ Hc x Hin) as Hcx. pose proof (flags_all _ Hfa x Hin) as Hfx.
         pose proof (in_sum_sizes _ _ Hin) as Hs.
-        assert (Hp : pure_eval y) by (apply IHc; [lia|assumption|assumption]).
-        destruct y; cbn [item_ok]; try exact Hp; try exact I. discriminate Hcx.
+        assert (Hp : pure_eval x) by (apply IHc; [lia|assumption|assumption]).
+        destruct x; cbn [item_ok]; try exact Hp; try exact I. discriminate Hcx. }
+      destruct (eval_items_with W ev tr args []) as [[t1 [vs|x]]|] eqn:Hl; cbn [lbind catch_short] in Hev; try discriminate.
+      + apply items_pure in Hl as [-> _]; [|assumption].
+        unfold eff in Hev. destruct (Hcall vs (length tr)) as [r Hr]. rewrite Hr in Hev. cbn [catch_short] in Hev. inv Hev.
+        rewrite app_nil_r. eauto.
+      + apply items_pure in Hl as [_ [vs Hvs]]; [discriminate|assumption].
     - (* ENew *)
       destruct pure; [|discriminate].
       rewrite esize_new in Hsz. cbn [flags_ok] in Hfl. destruct Hfl as [Hpc [Hft Hfa]].
       rewrite eval_new_eq in Hev.
-      destruct (Hpc eq_refl tr) as [fv [Hfv Hcall]]. rewrite Hfv in Hev. cbn [bind] in Hev.
+      destruct (Hpc eq_refl tr) as [fv [Hfv Hcall]]. change (eval_target W 0 tr e) with (ev tr e) in Hfv. rewrite Hfv in Hev. cbn [bind] in Hev.
       apply lbind_inv in Hev as [(t1 & vs & Hl & Hk)|(x & Hl & Ho)].
       + apply items_pure in Hl as [-> _].
         * apply eff_inv in Hk as (t2 & E & ->). destruct (Hcall vs (length tr)) as [r Hr]. rewrite Hr in E. inv E.
